@@ -980,6 +980,7 @@ func (h *Hashgraph) DecideFame() error {
 						// normal round
 						if math.Mod(float64(diff), COIN_ROUND_FREQ) > 0 {
 							if t >= jPeerSet.SuperMajority() {
+								simProbe("fame.decided", diff)
 								rRoundInfo.SetFame(x, v)
 								setVote(votes, y, x, v)
 								break VOTE_LOOP // break out of j loop
@@ -987,6 +988,7 @@ func (h *Hashgraph) DecideFame() error {
 								setVote(votes, y, x, v)
 							}
 						} else { // coin round
+							simProbe("fame.coin", t-jPeerSet.SuperMajority())
 							if t >= jPeerSet.SuperMajority() {
 								setVote(votes, y, x, v)
 							} else {
